@@ -114,7 +114,7 @@ def generate_solver(ctx):
     ns = S.make_namespace(ctx)
     st = {}
     f = harness.define(ctx, ns, "bldfm.solver", "steady_state_transport_solver",
-                       loop_specs={0: S.MeanLoop(st)}, label=S.LABEL)
+                       loop_specs={S.MEAN_LOOP: S.MeanLoop(st)}, label=S.LABEL)
     for cfg in S.configs(("single", "double", "other")):
         if cfg.halo != "value" or cfg.levels != "seq":
             continue
@@ -152,19 +152,88 @@ def generate_fft_manager(ctx):
         return
 
     def build(run, prev):
-        made = []
+        """The REAL FFTManager class and module functions, compiled against stubs of what they import:
+        pyfftw (config, interfaces.cache, wisdom import/export), pyfftw.interfaces.numpy_fft (the library
+        transforms: opaque, recorded), pickle, atexit, pathlib.Path, open."""
+        made, lib_calls, registered = [], [], []
 
-        class FFTManager:
-            def __init__(self, wisdom_file="fftw_wisdom.pkl", num_threads=1, cache_keepalive=30):
-                self.num_threads = num_threads
-                made.append(self)
+        class _Cfg:
+            NUM_THREADS = None
 
-            def fft2(self, input_data, norm="backward"):
-                return ("pyfftw.fft2", input_data, norm, self)
+        class _Cache:
+            @staticmethod
+            def enable():
+                lib_calls.append(("cache.enable",))
 
-            def ifft2(self, input_data, norm="backward"):
-                return ("pyfftw.ifft2", input_data, norm, self)
+            @staticmethod
+            def disable():
+                lib_calls.append(("cache.disable",))
+
+            @staticmethod
+            def set_keepalive_time(t):
+                lib_calls.append(("cache.keepalive", t))
+
+        class _Interfaces:
+            cache = _Cache
+
+        class pyfftw:
+            config = _Cfg
+            interfaces = _Interfaces
+
+            @staticmethod
+            def import_wisdom(w):
+                return (True, True, True)
+
+            @staticmethod
+            def export_wisdom():
+                return ("wisdom",)
+
+        class pyfftw_fft:
+            @staticmethod
+            def fft2(x, norm="backward", **kw):
+                return ("pyfftw.fft2", x, norm, kw)
+
+            @staticmethod
+            def ifft2(x, norm="backward", **kw):
+                return ("pyfftw.ifft2", x, norm, kw)
+
+        class Path:
+            def __init__(self, p):
+                self.p = p
+
+            def exists(self):
+                return bool(sym.fresh_bool("wisdom_file_exists"))
+
+        class _File:
+            def __enter__(self):
+                return self
+
+            def __exit__(self, *a):
+                return False
+
+        class pickle:
+            @staticmethod
+            def load(f):
+                return ("wisdom",)
+
+            @staticmethod
+            def dump(w, f):
+                lib_calls.append(("pickle.dump",))
+
+        class atexit:
+            @staticmethod
+            def register(fn):
+                registered.append(fn)
         ns = harness.namespace("bldfm.fft_manager")
+        ns.update({"pyfftw": pyfftw, "pyfftw_fft": pyfftw_fft, "Path": Path, "pickle": pickle, "atexit": atexit,
+                   "open": lambda *a, **k: _File()})
+        ns["__builtins__"] = dict(ns["__builtins__"], open=lambda *a, **k: _File(), all=all, Exception=Exception)
+        real = harness.define(ctx, ns, "bldfm.fft_manager", "FFTManager")
+
+        class FFTManager(real):
+            def __init__(self, *a, **k):
+                real.__init__(self, *a, **k)
+                made.append(self)
         ns["FFTManager"] = FFTManager
         for fn in ("get_fft_manager", "reset_fft_manager", "fft2", "ifft2"):
             harness.define(ctx, ns, "bldfm.fft_manager", fn)
@@ -174,6 +243,7 @@ def generate_fft_manager(ctx):
             m = FFTManager(num_threads=sym.fresh_int("prev_threads"))
             made.clear()
             ns["_fft_manager"] = m
+        ns["__lib_calls__"] = lib_calls
         return ns, made
 
     for prev in ("none", "some"):
@@ -199,7 +269,7 @@ def generate_fft_manager(ctx):
             for name, lib in (("fft2", "pyfftw.fft2"), ("ifft2", "pyfftw.ifft2")):
                 for norm in ("forward", "backward"):
                     r = ns[name](x, norm=norm)
-                    ok = isinstance(r, tuple) and r[0] == lib and r[1] is x and r[2] == norm
+                    ok = isinstance(r, tuple) and r[0] == lib and r[1] is x and r[2] == norm and not r[3]
                     run.oblige("%s[%s]-is-the-library-transform-of-its-argument" % (name, norm), SBool(ok), kind="post",
                                props=PROPS | {"C02", "C06"})
                 r = ns[name](x)
@@ -237,7 +307,7 @@ def generate_parallelize(ctx):
         r2 = w(x, y)
         ok = r1 == ("jit-result", ("body", x, y)) and r2 == r1
         run.oblige("wrapper-returns-kernel-of-the-decorated-body-on-the-same-arguments", SBool(ok), kind="post")
-        run.oblige("kernel-called-once-per-call", SBool(len(calls) == 2), kind="post")
+        run.oblige("kernel-called-once-per-call", SBool(len(calls) == 2), kind="post", meta={"structural": True})
     ctx.explore("utils.parallelize", thunk, PROPS)
 
 
